@@ -33,6 +33,13 @@ def slice_len(e):
         if e[0] == "unsize":
             c = e[2]
             return ("int", int(c)) if str(c).isdigit() else ("cparam", c)
+        if e[0] == "field" and e[2] in ("0", "1") and isinstance(e[1], tuple) and e[1][:1] == ("call",) and e[1][1] in ("<[T]>::split_at", "<[T]>::split_at_mut") and len(e[1][2]) == 2:
+            # split_at(s, k) = (s[..k], s[k..])
+            base, k = e[1][2]
+            k = norm_len(mir.strip_casts(k))
+            return k if e[2] == "0" else ("binop", "Sub", slice_len(base), k)
+        if e[0] == "ref" and isinstance(e[1], tuple) and e[1][0] == "local" and len(e[1]) > 2:
+            return slice_len(e[1][2])
         if _is_index(e):
             base, r = e[2]
             if isinstance(r, tuple) and r[0] == "agg":
@@ -56,8 +63,10 @@ def norm_len(e):
         return e
     if e[0] == "pcall" and e[1] == LEN and len(e[2]) == 1:
         x = mir.strip_casts(e[2][0])
-        if _is_index(x) or (isinstance(x, tuple) and x and x[0] == "unsize"):
-            return slice_len(x)
+        if _is_index(x) or (isinstance(x, tuple) and x and x[0] in ("unsize", "field", "ref")):
+            r = slice_len(x)
+            if r != ("pcall", LEN, (x,)) and r != e:
+                return r
         return e
     if e[0] in ("binop",):
         return (e[0], e[1], norm_len(e[2]), norm_len(e[3]))
